@@ -124,6 +124,16 @@ func (e *Engine) resolveType(pkgPath, s string) types.Type {
 	if t := try(pkgPath); t != nil {
 		return t
 	}
+	// pkgname.name, including unexported names (types.Eval refuses those across packages)
+	if i := strings.Index(s, "."); i > 0 && !strings.ContainsAny(s, "[]*( ") {
+		for _, p := range e.pkgs {
+			if p.Types != nil && p.Types.Name() == s[:i] {
+				if tn, ok := p.Types.Scope().Lookup(s[i+1:]).(*types.TypeName); ok {
+					return tn.Type()
+				}
+			}
+		}
+	}
 	for pp := range e.pkgs {
 		if t := try(pp); t != nil {
 			return t
@@ -684,6 +694,11 @@ func (c *specCtx) call(x *SExpr) *SVal {
 		v := c.eval(x.Args[0])
 		t := e.resolveType(c.pkgPath, "*"+strings.TrimPrefix(x.Args[1].String(), "*"))
 		return &SVal{T: v.T, Ty: t}
+	case "valof":
+		// valof(x, T): the struct value of type T currently stored in the object x refers to
+		v := c.eval(x.Args[0])
+		t := e.resolveType(c.pkgPath, strings.TrimPrefix(x.Args[1].String(), "*"))
+		return &SVal{T: e.loadObj(c.st, v.T, t), Ty: t}
 	case "deref":
 		// deref(p): the interface value stored in the cell p points to (p: pointer to an interface-typed variable)
 		v := c.eval(x.Args[0])
